@@ -54,3 +54,26 @@ func TestVF_DebugDeterminism(t *testing.T) {
 	}
 	fmt.Printf("distinct traces: %d over 60 runs\n", len(seen))
 }
+
+// TestVF_DebugC20: repeat a C20 replay until it fails, then print the history.
+func TestVF_DebugC20(t *testing.T) {
+	f := os.Getenv("VF_DEBUG_FILE")
+	if f == "" {
+		t.Skip()
+	}
+	b, _ := os.ReadFile(f)
+	var rf vfReplayFile
+	_ = json.Unmarshal(b, &rf)
+	var x c20Scn
+	if err := json.Unmarshal(rf.Scenario, &x); err != nil {
+		t.Fatal(err)
+	}
+	for i := 0; i < 200; i++ {
+		c := runC20(t, x, true)
+		if c.Verdict != "" {
+			fmt.Printf("FAILED at iteration %d: %s\n%s\n", i, c.Verdict, c.Detail)
+			return
+		}
+	}
+	fmt.Println("no failure in 200 iterations")
+}
